@@ -634,7 +634,7 @@ PROPS["C15"]["claim"] += (" FLOATING-POINT CLAUSE UNDER THE STANDARD MODEL (Proo
                           "(what IEEE-754 guarantees for correctly rounded operations; binary64: u = 2^-53) the five-rounding computation is within ((1+u)^5 - 1), hence 6u, of (|M x| + |B| 10^K1) 10^K2 "
                           "from the specification's value, for ALL integers: the tolerance the correspondence check applies to the real float64 on every run is this theorem's bound. BINARY64 (Lemmas/Binary64.lean): "
                           "rnd64, IEEE-754 round-to-nearest-even over the rationals, is PROVED an instance of that model with u = 2^-53 (rnd64_err), so convert_binary64_within_6u holds of the concrete value; the driver "
-                          "computes that value exactly and the correspondence run compares it BIT FOR BIT (as the rational num/den) with the float64 the real code returned for every reading (the ~lin= field), and likewise the result of the three linearisations Go computes with correctly rounded operations only (1/x, x^2, x^3: the ~nl= field). Still trusted: "
+                          "computes that value exactly and the correspondence run compares it BIT FOR BIT (as the rational num/den) with the float64 the real code returned for every reading (the ~lin= field), and likewise the result of the three linearisations Go computes with correctly rounded operations only (1/x, x^2, x^3 under rnd64, and sqrt under the correctly rounded sqrt64: the ~nl= field). Still trusted: "
                           "that Go's float64 operations and math.Pow10 are IEEE-754 correctly rounded (now confirmed bit for bit on every input of the run), and the library functions behind the linearisations.")
 PROPS["C17"]["proofs"] = PROPS["C17"]["proofs"] + ["Bmc.Proofs.EndToEnd.ReuseC17"]
 PROPS["C17"]["claim"] += (" generated_session_SendCommand_ignores_history / generated_sessionless_SendCommand_ignores_history (Proofs/EndToEnd/ReuseC17.lean): SendCommand AS TRANSLATED ON THIS RUN gives "
